@@ -307,7 +307,7 @@ def _rename_locals(fn: ast.FunctionDef, template) -> None:
             n.name = mapping[n.name]
 
 
-_PURE_BUILTINS = {"len", "int", "bool", "bytes", "bytearray", "min", "max", "abs", "tuple", "list", "divmod", "float", "str", "hex"}
+_PURE_BUILTINS = {"len", "int", "bool", "bytes", "bytearray", "min", "max", "abs", "tuple", "list", "divmod", "float", "str", "hex", "super", "isinstance", "range", "sorted", "round"}
 _SIMPLE_STMTS = (ast.Assign, ast.AugAssign, ast.Expr, ast.Return, ast.Raise, ast.Assert, ast.Delete)
 
 
@@ -330,13 +330,110 @@ def _fn_blocks(fn: ast.FunctionDef):
     return out
 
 
+def _eval_events(node: ast.AST, stop: ast.AST):
+    """Side-effect-relevant events of evaluating `node` (an expression or simple statement) in Python's order, up to the
+    evaluation of `stop`: list of ('call'|'load', node).  Returns (events, reached)."""
+    ev = []
+
+    class _Stop(Exception):
+        pass
+
+    def go(e):
+        if e is None:
+            return
+        if e is stop:
+            raise _Stop()
+        if isinstance(e, ast.Call):
+            go(e.func)
+            for a in e.args:
+                go(a)
+            for k in e.keywords:
+                go(k.value)
+            ev.append(("call", e))
+        elif isinstance(e, ast.Attribute):
+            go(e.value)
+            if isinstance(e.ctx, ast.Load):
+                ev.append(("load", e))
+        elif isinstance(e, ast.Subscript):
+            go(e.value)
+            go(e.slice)
+            if isinstance(e.ctx, ast.Load):
+                ev.append(("load", e))
+        elif isinstance(e, ast.BinOp):
+            go(e.left)
+            go(e.right)
+        elif isinstance(e, ast.Compare):
+            go(e.left)
+            for c in e.comparators:
+                go(c)
+        elif isinstance(e, ast.BoolOp):
+            for v in e.values:
+                go(v)
+        elif isinstance(e, ast.UnaryOp):
+            go(e.operand)
+        elif isinstance(e, ast.IfExp):
+            go(e.test)
+            go(e.body)
+            go(e.orelse)
+        elif isinstance(e, (ast.Tuple, ast.List, ast.Set)):
+            for x in e.elts:
+                go(x)
+        elif isinstance(e, ast.Dict):
+            for k, v in zip(e.keys, e.values):
+                go(k)
+                go(v)
+        elif isinstance(e, ast.JoinedStr):
+            for v in e.values:
+                go(v)
+        elif isinstance(e, ast.FormattedValue):
+            go(e.value)
+            go(e.format_spec)
+        elif isinstance(e, ast.Starred):
+            go(e.value)
+        elif isinstance(e, ast.Slice):
+            go(e.lower)
+            go(e.upper)
+            go(e.step)
+        elif isinstance(e, ast.Assign):
+            go(e.value)
+            for t in e.targets:
+                go(t)
+        elif isinstance(e, ast.AugAssign):
+            go(e.target)
+            go(e.value)
+        elif isinstance(e, (ast.Return, ast.Expr)):
+            go(e.value)
+        elif isinstance(e, ast.Raise):
+            go(e.exc)
+            go(e.cause)
+        elif isinstance(e, ast.Assert):
+            go(e.test)
+            go(e.msg)
+        elif isinstance(e, ast.Delete):
+            for t in e.targets:
+                go(t)
+    try:
+        go(node)
+    except _Stop:
+        return ev, True
+    return ev, False
+
+
+def _impure_calls(e: ast.AST):
+    return [x for x in ast.walk(e) if isinstance(x, ast.Call) and not (isinstance(x.func, ast.Name) and x.func.id in _PURE_BUILTINS)]
+
+
 def _inline_fresh_temps(fn: ast.FunctionDef, known: set) -> None:
-    """A local that the reference tree does not have, assigned once from a call-free expression and read only in the
-    statement that immediately follows, is replaced by its expression (the inverse of "extract variable").  Applied only to
-    names absent from the recorded local names, so the unchanged tree is never rewritten.  Semantics-preserving: the
-    expression is evaluated at its (single) place of use, no call of the using statement is evaluated before it."""
-    params = {p.arg for p in fn.args.posonlyargs + fn.args.args + fn.args.kwonlyargs}
-    for _ in range(8):
+    """A local that the reference tree does not have, assigned once and read once in a later statement of the same block,
+    is replaced by its expression (the inverse of "extract variable").  Applied only to names absent from the recorded
+    local names, so the unchanged tree is never rewritten.  Semantics-preserving: the statements in between are themselves
+    assignments of plain locals that neither the expression nor they can influence, and inside the using statement nothing
+    that the move could reorder against (a call; for an expression with calls also any attribute/subscript read) is
+    evaluated before the place of use."""
+    import copy as _copy
+    params = {p.arg for p in fn.args.posonlyargs + fn.args.args + fn.args.kwonlyargs} | ({fn.args.vararg.arg} if fn.args.vararg else set()) | ({fn.args.kwarg.arg} if fn.args.kwarg else set())
+    banned = (ast.Lambda, ast.ListComp, ast.SetComp, ast.DictComp, ast.GeneratorExp, ast.NamedExpr, ast.Await, ast.Yield, ast.YieldFrom)
+    for _ in range(12):
         changed = False
         stores, loads = {}, {}
         for n in ast.walk(fn):
@@ -346,35 +443,53 @@ def _inline_fresh_temps(fn: ast.FunctionDef, known: set) -> None:
                 return
         for blk in _fn_blocks(fn):
             for i in range(len(blk) - 1):
-                st, nxt = blk[i], blk[i + 1]
+                st = blk[i]
                 if not (isinstance(st, ast.Assign) and len(st.targets) == 1 and isinstance(st.targets[0], ast.Name)):
                     continue
                 t = st.targets[0].id
-                if t in known or t in params or len(stores.get(t, [])) != 1 or not loads.get(t):
+                if t in known or t in params or len(stores.get(t, [])) != 1 or len(loads.get(t, [])) != 1:
                     continue
-                if not isinstance(nxt, _SIMPLE_STMTS):
-                    continue
-                inside = [x for x in ast.walk(nxt) if isinstance(x, ast.Name) and x.id == t and isinstance(x.ctx, ast.Load)]
-                if len(inside) != len(loads[t]) or len(inside) != 1:
-                    continue
-                if any(isinstance(x, (ast.Lambda, ast.ListComp, ast.SetComp, ast.DictComp, ast.GeneratorExp, ast.NamedExpr, ast.Await, ast.Yield, ast.YieldFrom)) for x in ast.walk(nxt)):
-                    continue
+                use = loads[t][0]
                 rhs = st.value
-                if any(isinstance(x, (ast.Lambda, ast.ListComp, ast.SetComp, ast.DictComp, ast.GeneratorExp, ast.NamedExpr, ast.Await, ast.Yield, ast.YieldFrom, ast.Starred)) for x in ast.walk(rhs)):
+                if any(isinstance(x, banned + (ast.Starred,)) for x in ast.walk(rhs)):
                     continue
-                if any(isinstance(x, ast.Call) and not (isinstance(x.func, ast.Name) and x.func.id in _PURE_BUILTINS) for x in ast.walk(rhs)):
+                impure = bool(_impure_calls(rhs))
+                reads_state = any(isinstance(x, (ast.Attribute, ast.Subscript)) for x in ast.walk(rhs))
+                rhs_names = {x.id for x in ast.walk(rhs) if isinstance(x, ast.Name)}
+                # find the using statement in the same block
+                j = None
+                for k in range(i + 1, len(blk)):
+                    scope = blk[k].test if isinstance(blk[k], ast.If) else blk[k]
+                    if any(x is use for x in ast.walk(scope)):
+                        j = k
+                        break
+                    mid = blk[k]
+                    ok_mid = isinstance(mid, ast.Assign) and len(mid.targets) == 1 and isinstance(mid.targets[0], ast.Name) and mid.targets[0].id not in rhs_names \
+                        and not _impure_calls(mid.value) and not any(isinstance(x, banned) for x in ast.walk(mid.value))
+                    if ok_mid and impure and any(isinstance(x, (ast.Attribute, ast.Subscript)) for x in ast.walk(mid.value)):
+                        ok_mid = False
+                    if not ok_mid:
+                        break
+                if j is None:
                     continue
-                use = inside[0]
-                # no call of the using statement may run before the use (it could change what the expression reads)
-                upos = (getattr(use, "lineno", 0), getattr(use, "col_offset", 0))
-                early = False
-                for c in ast.walk(nxt):
-                    if isinstance(c, ast.Call) and not any(x is use for x in ast.walk(c)):
-                        if (getattr(c, "lineno", 0), getattr(c, "col_offset", 0)) < upos:
-                            early = True
-                if early and any(isinstance(x, (ast.Attribute, ast.Subscript)) for x in ast.walk(rhs)):
+                nxt = blk[j]
+                scope_node = nxt.test if isinstance(nxt, ast.If) else nxt
+                if not isinstance(nxt, ast.If) and not isinstance(nxt, _SIMPLE_STMTS):
                     continue
-                import copy as _copy
+                if any(isinstance(x, banned) for x in ast.walk(scope_node)):
+                    continue
+                events, reached = _eval_events(scope_node, use)
+                if not reached:
+                    continue
+                # a use under a conditional sub-expression (IfExp branch, and/or operand after the first) may not be evaluated at all
+                cond_parents = [x for x in ast.walk(scope_node) if (isinstance(x, ast.IfExp) and any(y is use for b in (x.body, x.orelse) for y in ast.walk(b)))
+                                or (isinstance(x, ast.BoolOp) and any(y is use for v in x.values[1:] for y in ast.walk(v)))]
+                if cond_parents and (impure or reads_state):
+                    continue
+                if impure and events:
+                    continue
+                if reads_state and any(k == "call" and _impure_calls(e_) for k, e_ in events):
+                    continue
                 new = _copy.deepcopy(rhs)
 
                 class _R(ast.NodeTransformer):
@@ -382,7 +497,10 @@ def _inline_fresh_temps(fn: ast.FunctionDef, known: set) -> None:
                         if node is use:
                             return ast.copy_location(new, node)
                         return node
-                blk[i + 1] = _R().visit(nxt)
+                if isinstance(nxt, ast.If):
+                    nxt.test = _R().visit(nxt.test)
+                else:
+                    blk[j] = _R().visit(nxt)
                 del blk[i]
                 changed = True
                 break
@@ -408,10 +526,59 @@ def _load_localnames():
     return _LOCALNAMES
 
 
+def _rename_params(fn: ast.FunctionDef, ref_params) -> None:
+    """Parameters renamed in place (same count, same positions) are given the reference's names again: inside the function
+    this is alpha-renaming; keyword call sites are the callers' business and are checked where a rule looks at them."""
+    a = fn.args
+    cur = a.posonlyargs + a.args + a.kwonlyargs + ([a.vararg] if a.vararg else []) + ([a.kwarg] if a.kwarg else [])
+    if len(cur) != len(ref_params):
+        return
+    mapping = {c.arg: r for c, r in zip(cur, ref_params) if c.arg != r}
+    if not mapping:
+        return
+    used = {n.id for n in ast.walk(fn) if isinstance(n, ast.Name)} | {x.arg for x in ast.walk(fn) if isinstance(x, ast.arg)}
+    for old, new in mapping.items():
+        if new in used and new not in mapping:
+            return
+    for n in ast.walk(fn):
+        if isinstance(n, (ast.FunctionDef, ast.Lambda)) and n is not fn:
+            inner = n.args
+            if {x.arg for x in inner.posonlyargs + inner.args + inner.kwonlyargs} & (set(mapping) | set(mapping.values())):
+                return
+    for n in ast.walk(fn):
+        if isinstance(n, ast.Name) and n.id in mapping:
+            n.id = mapping[n.id]
+    for c in cur:
+        if c.arg in mapping:
+            c.arg = mapping[c.arg]
+
+
+_REFERENCE = None
+
+
+def _load_reference():
+    global _REFERENCE
+    if _REFERENCE is None:
+        import json
+        p = os.path.join(os.path.dirname(os.path.abspath(__file__)), "reference.json")
+        try:
+            with open(p) as fh:
+                _REFERENCE = json.load(fh)
+        except OSError:
+            _REFERENCE = {}
+    return _REFERENCE
+
+
 def canonicalise(tree: ast.Module, rel: str = "") -> ast.Module:
     tree = _Canonical().visit(tree)
-    names = _load_localnames().get(rel, {}) if os.environ.get("VERIF_NO_RENAME") != "1" else {}
-    if names:
+    off = os.environ.get("VERIF_NO_RENAME") == "1"
+    names = _load_localnames().get(rel, {}) if not off else {}
+    ref = _load_reference().get(rel) if not off else None
+    if ref is not None:
+        from . import canon
+        canon.inline_fresh_constants(tree, ref)
+        canon.inline_fresh_helpers(tree, ref)
+    if names or ref is not None:
         def walk(node, prefix):
             for n in getattr(node, "body", []):
                 if isinstance(n, ast.ClassDef):
@@ -420,6 +587,8 @@ def canonicalise(tree: ast.Module, rel: str = "") -> ast.Module:
                     q = prefix + n.name
                     if any(isinstance(d, ast.Attribute) and d.attr == "setter" for d in n.decorator_list):
                         q += ".setter"
+                    if ref is not None and q in ref.get("funcs", {}):
+                        _rename_params(n, ref["funcs"][q].get("params", []))
                     if q in names:
                         _rename_locals(n, [(s, list(ns)) for s, ns in names[q]])
                     known = {x for _s, ns in names.get(q, []) for x in ns}
@@ -428,6 +597,10 @@ def canonicalise(tree: ast.Module, rel: str = "") -> ast.Module:
                         if qq.startswith(q + ".") or q.startswith(qq + "."):
                             known |= {x for _s, ns in sh for x in ns}
                     _inline_fresh_temps(n, known)
+                    if ref is not None and q in ref.get("funcs", {}):
+                        from . import canon
+                        canon.normalise_control_flow(n, ref["funcs"][q].get("tests", []), ref["funcs"][q].get("forms", {}))
+                        _inline_fresh_temps(n, known)
                     walk(n, q + ".")
         walk(tree, "")
     ast.fix_missing_locations(tree)
